@@ -51,6 +51,10 @@ impl Worker {
 
 pub struct Pool {
     w: Option<Worker>,
+    /// After this many calls have run into their deadline the remaining calls are not made
+    /// (answer {"e": "NotRun"}): the verdict is decided by then, and a change that makes every
+    /// call hang would otherwise cost ten seconds per call.
+    pub hang_budget: Option<u64>,
     pub hangs: u64,
     pub aborts: u64,
     pub calls: u64,
@@ -58,11 +62,20 @@ pub struct Pool {
 
 impl Pool {
     pub fn new() -> Pool {
-        Pool { w: None, hangs: 0, aborts: 0, calls: 0 }
+        Pool { w: None, hang_budget: None, hangs: 0, aborts: 0, calls: 0 }
     }
 
     /// Sends one request line to the worker and waits for one answer line.
+    pub fn with_hang_budget(n: u64) -> Pool {
+        let mut pool = Pool::new();
+        pool.hang_budget = Some(n);
+        pool
+    }
+
     pub fn call(&mut self, req: &Value, timeout: Duration) -> Value {
+        if self.hang_budget.map_or(false, |b| self.hangs >= b) {
+            return json!({"e": "NotRun", "v": []});
+        }
         self.calls += 1;
         if self.w.is_none() {
             self.w = Some(Worker::spawn());
